@@ -232,7 +232,8 @@ class Interp:
                 else:
                     v = self.vars[tx]
                     if tx in self.pnames and nxt != "LSQBRAC":
-                        if len(sl) == 1:
+                        if len(sl) == 1 or all(t[0] in ("LBRAC", "RBRAC", "PLUS") for i_, t in enumerate(sl) if i_ != k):
+                            # (brackets and a plus sign around the name denote the same array)
                             byname = ByName(tx)
                         # a p-array inside a larger expression is outside the described language
                     if isinstance(v, Sym):
